@@ -307,13 +307,50 @@ func runC14(c *Ctx) {
 					okPrefix = uses > 0 && okUses
 					prefixFound = found
 				}
+				// hdr[:7] == "Bearer " then hdr[7:]: the manual spelling of HasPrefix/TrimPrefix
+				var manualRest ssa.Value
+				for _, in := range instrs(f) {
+					sl, isSl := in.(*ssa.Slice)
+					if !isSl || sl.X != ssa.Value(h) || sl.High != nil || sl.Low == nil {
+						continue
+					}
+					if k, isK := constInt(sl.Low); !isK || k != int64(len("Bearer ")) {
+						continue
+					}
+					headIsPrefix := factEqString(func(v ssa.Value) bool {
+						hs, ok := v.(*ssa.Slice)
+						if !ok || hs.X != ssa.Value(h) || hs.Low != nil || hs.High == nil {
+							return false
+						}
+						k, isK := constInt(hs.High)
+						return isK && k == int64(len("Bearer "))
+					}, "Bearer ", true)
+					okPrefix = guardedBy(sl, h, headIsPrefix)
+					manualRest = sl
+				}
 				c.obI("R14.3", h, "header-first-with-bearer-prefix", okH && okPrefix && dominates(h, q) && dominates(h, fm), "the Authorization header is read first and a token is taken from it only behind the \"Bearer \" prefix", "")
 				_, qa := callArgs(&q.Call)
 				qk, _ := constString(qa[0])
-				isTokenEmpty := factEqString(func(v ssa.Value) bool {
+				var isTokenV func(v ssa.Value, d int) bool
+				isTokenV = func(v ssa.Value, d int) bool {
+					if manualRest != nil && d < 6 {
+						// (origins look through a slice expression to the header itself: walk the merge by hand)
+						if v == manualRest {
+							return true
+						}
+						if phi, isPhi := v.(*ssa.Phi); isPhi {
+							for _, e := range phi.Edges {
+								if !isTokenV(e, d+1) {
+									return false
+								}
+							}
+							return true
+						}
+					}
 					ok, _ := allOrigins(v, oConstString(""), oCall(-1, "strings.TrimPrefix"), oCall(0, "strings.CutPrefix"), oCall(-1, "(net/url.Values).Get"), oCall(-1, "(*net/http.Request).FormValue"))
 					return ok
-				}, "", true)
+				}
+				isTokenEmpty := factEqString(func(v ssa.Value) bool { return isTokenV(v, 0) }, "", true)
 				// "the header gave no token": the token so far is empty, or the header did not carry the prefix at all
 				noHeaderToken := isTokenEmpty
 				if prefixFound != nil {
